@@ -987,12 +987,14 @@ impl<'a> Query<'a> {
     /// Add a constraint to the query
     pub fn with_constraint(mut self, constraint: Constraint<'a>) -> Self {
         self.constraints.push(constraint);
+        self.constraint_attributes.push(Vec::new());
         self
     }
 
     /// Add a constraint to the query
     pub fn constrain(&mut self, constraint: Constraint<'a>) -> &mut Self {
         self.constraints.push(constraint);
+        self.constraint_attributes.push(Vec::new());
         self
     }
 
